@@ -72,7 +72,10 @@ def main():
         i = args.index("--n"); n_over = int(args[i + 1]); del args[i:i + 2]
     ids = [a.upper() for a in args] or [l.strip() for l in open(os.path.join(ROOT, "claimed.txt")) if l.strip()]
     os.makedirs(SCR, exist_ok=True)
-    env = dict(os.environ, RUSTFLAGS="--cfg barter_rs_verif -C instrument-coverage", CARGO_TARGET_DIR=SCR + "/target")
+    # LLVM_PROFILE_FILE: build scripts and proc macros are instrumented too and would otherwise drop
+    # default_*.profraw files into the package directories under /repo
+    env = dict(os.environ, RUSTFLAGS="--cfg barter_rs_verif -C instrument-coverage", CARGO_TARGET_DIR=SCR + "/target",
+               LLVM_PROFILE_FILE=SCR + "/build-%p-%m.profraw")
     bins = ["--bin=c" + i[1:].lower() for i in ids]
     r = sh(["cargo", "+nightly", "build", "--offline"] + bins, cwd=HARNESS, env=env)
     if r.returncode != 0:
